@@ -13,6 +13,8 @@ Prog_pp3  == (1 :> Rep(O("push", 1), 2)) @@ (2 :> Rep(O("push", 1), 2)) @@ (3 :>
 Prog_sr   == (1 :> Rep(O("send", 1), 2)) @@ (2 :> Rep(O("send", 1), 2)) @@ (3 :> Rep(O("recv", 1), 2)) @@ (4 :> Rep(O("recv", 1), 2))
 Prog_mix  == (1 :> <<O("send", 1), O("push", 1)>>) @@ (2 :> Rep(O("send", 1), 2))
              @@ (3 :> <<O("recv", 1), O("pop", 1)>>) @@ (4 :> <<O("pop", 1), O("recv", 1)>>)
+\* push() next to fetch_add recv(): one producer, three consumers (processes 3,4,5)
+Prog_pr   == (1 :> Rep(O("push", 1), 3)) @@ (3 :> Rep(O("recv", 1), 1)) @@ (4 :> Rep(O("recv", 1), 2)) @@ (5 :> Rep(O("recv", 1), 1))
 \* 1x1 with 4 items (index wrap)
 Prog_w_pp == (1 :> Rep(O("push", 1), 4)) @@ (3 :> Rep(O("pop", 1), 5))
 Prog_w_sr == (1 :> Rep(O("send", 1), 4)) @@ (3 :> Rep(O("recv", 1), 4))
